@@ -64,6 +64,12 @@ CLAIMED = {
    note='losslessness of a concrete serialisation format on floats is a property of the serialiser', ref='4/C20'),
 }
 
+# sqrt-domain (DESIGN 30): the IEEE-sign rule on radicands is part of these four checks
+_SQRT = ' In addition (sqrt-domain rule, sa/sqrtdom.py) every square root met on any path of these producers has a radicand that is non-negative as a floating-point value by its shape or by a guard of the same path - an unguarded cancelling difference under a root (the one-pass variance on a constant sample) is reported; the genuine defect found this way was repaired in /repo (4307b4e).'
+for _k in ('C01', 'C02', 'C04', 'C05'):
+    CLAIMED[_k]['tech'] += ' + IEEE sign rule on square-root radicands'
+    CLAIMED[_k]['text'] += _SQRT
+
 checks = []
 for p in props:
     pid = p['id']
